@@ -29,7 +29,9 @@ type ZZRecorded struct {
 
 // ZZRecNIC is a NIC that records everything handed to it.
 type ZZRecNIC struct {
-	Got []ZZRecorded
+	// SlowBy makes the NIC take that much (virtual) time per chunk, like a slow device or filter
+	SlowBy time.Duration
+	Got    []ZZRecorded
 	ifc *transport.Interface
 	ips []net.IP
 }
@@ -48,6 +50,9 @@ func (n *ZZRecNIC) getInterface(string) (*transport.Interface, error) { return n
 func (n *ZZRecNIC) getStaticIPs() []net.IP                             { return n.ips }
 func (n *ZZRecNIC) setRouter(*Router) error                            { return nil }
 func (n *ZZRecNIC) onInboundChunk(c Chunk) {
+	if n.SlowBy > 0 {
+		defer zzvsched.Sleep(n.SlowBy)
+	}
 	n.Got = append(n.Got, ZZRecorded{At: zzvsched.Elapsed(), Src: c.SourceAddr().String(), Dst: c.DestinationAddr().String(),
 		Payload: append([]byte(nil), c.UserData()...), Tag: c.Tag(), Str: c.String(), Chunk: c})
 }
